@@ -20,7 +20,7 @@
     A field vector is a [list value] with [VNull] for None.  The decoding of one
     field is the value decoder [dec] (the typed field decoders agree with it on
     type-correct input: that is what the `comp` correspondence exercises). *)
-From FV Require Import Base.Bytes Codec.Value Codec.Enc Codec.Dec.
+From FV Require Import Base.Bytes Codec.Value Codec.Enc Codec.Dec Codec.Size.
 
 Inductive fkind :=
 | FOpt                      (* Option<T> *)
@@ -53,6 +53,11 @@ Fixpoint elide (ks : list fkind) (vs : list value) (nulls : nat) : list value :=
 (** [to_vec(&x)] for a composite: descriptor by code, then the list *)
 Definition enc_composite (c : ctx) (s : schema) (vs : list value) : option bytes :=
   enc c (VDescribed (DCode (s_code s)) (VList (elide (s_fields s) vs 0))).
+
+(** [serialized_size(&x)] for a composite: the derived [serialize] drives the [SizeSerializer] with the same
+    sequence of fields *)
+Definition size_composite (c : ctx) (s : schema) (vs : list value) : option N :=
+  size_of c (VDescribed (DCode (s_code s)) (VList (elide (s_fields s) vs 0))).
 
 (** [DescribedAccess::consume_list_header]: the size is read and ignored *)
 Definition list_header (bs : bytes) : result (N * bytes) :=
